@@ -19,6 +19,9 @@ type Explorer struct {
 	Deadline  time.Time    // zero = none
 	MaxFailExecs int       // stop exploring after this many failing executions (0 = 25)
 	ReplayEvery  int       // replay every n-th execution to prove determinism (0 = 100)
+	// NoPolling asserts that no select-with-default ever involves an unbuffered model channel (checked at
+	// run time); then a thread's arrival at a channel operation is not observable and needs no step of its own.
+	NoPolling bool
 
 	bound       int
 	prune       bool
